@@ -749,18 +749,19 @@ fn typed_case(case: u64, rng: &mut Rng, st: &mut Stats, n: usize, with_storage: 
 // ---------------------------------------------------------------------------------------------
 // Miri (thorough tier): the schema-only oracles on a small seeded workload
 
-fn miri_run(run: &mut Run) {
-    let budget = run.time_left().as_secs().clamp(60, 420);
-    let n = run.arg_u64("miri_values", 350);
+/// Runs `c13_miri` under `cargo +nightly miri run` (own target dir). Started at the beginning of
+/// the thorough tier on its own thread (Miri interprets on one core) and joined at the end.
+fn miri_subprocess(seed: u64, n: u64) -> Stats {
     let mut st = Stats::default();
+    let harness = vcore::run::verif_root().join("harness");
     let out = std::process::Command::new("timeout")
-        .arg(format!("{budget}"))
-        .args(["cargo", "+nightly", "miri", "run", "--offline", "-q", "-p", "v_schema", "--bin", "c13_miri", "--"])
-        .arg(format!("{}", run.seed))
+        .arg("1500")
+        .args(["cargo", "+nightly", "miri", "run", "--offline", "-q", "-j", "6", "-p", "v_schema", "--bin", "c13_miri", "--"])
+        .arg(format!("{seed}"))
         .arg(format!("{n}"))
-        .current_dir(vcore::run::verif_root().join("harness"))
+        .current_dir(&harness)
         .env("MIRIFLAGS", "-Zmiri-disable-isolation")
-        .env("CARGO_TARGET_DIR", vcore::run::verif_root().join("harness").join("target-miri"))
+        .env("CARGO_TARGET_DIR", harness.join("target-miri"))
         .output();
     match out {
         Err(e) => st.inconclusive(format!("miri could not be started: {e}")),
@@ -775,9 +776,12 @@ fn miri_run(run: &mut Run) {
                     line.split_whitespace().find_map(|w| w.strip_prefix(k).and_then(|v| v.parse::<u64>().ok())).unwrap_or(0)
                 };
                 st.add("miri_values_checked", num("values="));
-                st.add("miri_oracle_violations", num("violations="));
+                st.add("miri_oracle_evaluations", num("evaluations="));
                 if num("violations=") > 0 {
                     st.violation("C13/miri/oracle_violation_under_miri", json!({"stdout": tail(&stdout)}));
+                }
+                if stdout.contains("MIRI-C13 inconclusive") {
+                    st.inconclusive("harness fault inside the Miri workload (see MIRI-C13 inconclusive lines)");
                 }
             } else {
                 st.inconclusive(format!(
@@ -788,7 +792,7 @@ fn miri_run(run: &mut Run) {
             }
         }
     }
-    run.stats.merge(st);
+    st
 }
 
 fn main() {
@@ -804,6 +808,12 @@ fn main() {
     run.assume("an undeclared key of a keyed map in STORED bytes is documented to be pruned on read (removed nested field); write paths must refuse it");
     run.assume("JSON null directly under Option and Some(None) are plain-serde-indistinguishable from None and are not generated as valid");
     let t = run.tier;
+    let miri = if t == vcore::Tier::Thorough && run.wants("miri") && run.replay.is_none() {
+        let (seed, n) = (run.seed, run.arg_u64("miri_values", 250));
+        Some(std::thread::spawn(move || miri_subprocess(seed, n)))
+    } else {
+        None
+    };
     if run.wants("pairs") {
         run.parallel("pairs", t.pick(40_000, 4_000_000), 0.45, pair_case);
     }
@@ -828,8 +838,11 @@ fn main() {
         run.parallel("vector_untyped", t.pick(16, 64), 0.3, vector_untyped_case);
         run.parallel("storage_vector_untyped", t.pick(8, 32), 0.3, |c, rng, st| block_on(storage_vector_untyped_case(c, rng, st)));
     }
-    if t == vcore::Tier::Thorough && run.wants("miri") {
-        miri_run(&mut run);
+    if let Some(h) = miri {
+        match h.join() {
+            Ok(st) => run.stats.merge(st),
+            Err(_) => run.stats.inconclusive("miri driver thread panicked"),
+        }
         run.floor("miri_values_checked", 100);
     }
 
